@@ -20,11 +20,30 @@ answered last. This file builds the machine in which that hypothesis is a *conse
 Ghosts (read by no component): `table` — for every transaction ever created (index = the unit's
 creation index = the id the ROB's Top port gives the request, proved) its wavefront, kind,
 instruction and last flag; `oi i` — the identities of the outstanding FLAT instructions of wavefront
-`i`, parallel to the ghost queue `(g.g i).qv`; `log` — the annotated events the scheduler saw.
+`i`, parallel to the ghost queue `(g.g i).qv`; `adm` — which transaction the `k`-th request admitted
+by the ROB carried; `log` — the annotated events the scheduler saw.
 
 The annotation of a response (`k` = position of its instruction among the outstanding ones) is
 COMPUTED from the identity of the transaction the ROB's response names (`idxOf ins (oi wf)`), it is
 not assumed to be 0. -/
+namespace C14
+
+/-- the part of `inOrder` that `waitcnt_tracks_truth` really needs: the response of an instruction's
+    LAST transaction arrives after the responses of its other transactions. Nothing is required
+    about the order of responses that belong to different instructions. -/
+def lastLast (gs : GState) : GOp → Bool
+  | .memRet i kind k last =>
+    !last || match (pathQueue (gs.g i) kind)[k]? with
+      | none => false
+      | some a => a.rest == 0
+  | _ => true
+
+def lastLastRun (c : Cfg) : GState → List GOp → Bool
+  | _, [] => true
+  | gs, o :: ops => lastLast gs o && lastLastRun c (gstep c gs o) ops
+
+end C14
+
 namespace C14.Chain
 open C14
 
@@ -44,6 +63,8 @@ structure CSys where
   vmu : Vmu.St
   sys : C15.Sys
   table : List Txn
+  /-- ghost: the transaction (creation index) behind the `k`-th request the ROB's Top port admitted -/
+  adm : List Nat
   oi : Nat → List Nat
   log : List GOp
 
@@ -80,20 +101,26 @@ def upd (f : Nat → List Nat) (i : Nat) (v : List Nat) : Nat → List Nat := fu
 /-- the annotated return event for the transaction a response names -/
 def retOp (σ : CSys) (t : Txn) : GOp := .memRet t.wf t.kind ((σ.oi t.wf).idxOf t.ins) t.last
 
-def cstep (c : Cfg) (vc : Vmu.Cfg) (rc : C15.Cfg) (σ : CSys) : CEv → CSys
+/-- the transaction a response with `RspTo = id` answers: the ROB restores the id its Top port gave
+    the request (`C15.sys_response_is_the_answer`), the `id`-th admitted request carried transaction
+    `adm[id]` -/
+def txnOf (σ : CSys) (id : Nat) : Option Txn := (σ.adm[id]?).bind (fun ti => σ.table[ti]?)
+
+/-- one event of the composed machine around a vector memory unit whose cycle is `cyc` -/
+def cstepG (c : Cfg) (rc : C15.Cfg) (cyc : Vmu.St → Vmu.St) (σ : CSys) : CEv → CSys
   | .other o => { σ with g := gstep c σ.g o, log := σ.log ++ [o] }
   | .flat i store n p =>
     { σ with g := gstep c σ.g (.memIssue i true n), log := σ.log ++ [.memIssue i true n],
              vmu := Vmu.issue σ.vmu (n + 1) p,
              table := σ.table ++ newTxns i (kindOf store) σ.vmu.next n,
              oi := upd σ.oi i (σ.oi i ++ [σ.vmu.next]) }
-  | .vcyc => { σ with vmu := Vmu.cycle vc σ.vmu }
+  | .vcyc => { σ with vmu := cyc σ.vmu }
   | .conn q =>
     match σ.vmu.out with
     | [] => σ
-    | _ :: _ =>
+    | e :: _ =>
       if σ.sys.rob.topIn.length < rc.topInCap then
-        { σ with vmu := Vmu.take σ.vmu 1, sys := C15.sysStep rc σ.sys (.arrive q) }
+        { σ with vmu := Vmu.take σ.vmu 1, sys := C15.sysStep rc σ.sys (.arrive q), adm := σ.adm ++ [e] }
       else σ
   | .robTick => { σ with sys := C15.sysStep rc σ.sys .tick }
   | .memTake => { σ with sys := C15.sysStep rc σ.sys .memTake }
@@ -102,7 +129,7 @@ def cstep (c : Cfg) (vc : Vmu.Cfg) (rc : C15.Cfg) (σ : CSys) : CEv → CSys
     match σ.sys.rob.topOut with
     | [] => σ
     | r :: _ =>
-      match σ.table[r.rspTo]? with
+      match txnOf σ r.rspTo with
       | none => σ
       | some t =>
         let g' := gstep c σ.g (retOp σ t)
@@ -111,12 +138,20 @@ def cstep (c : Cfg) (vc : Vmu.Cfg) (rc : C15.Cfg) (σ : CSys) : CEv → CSys
                          upd σ.oi t.wf ((σ.oi t.wf).eraseIdx ((σ.oi t.wf).idxOf t.ins))
                        else σ.oi }
 
+/-- the composed machine with the repaired unit -/
+def cstep (c : Cfg) (vc : Vmu.Cfg) (rc : C15.Cfg) (σ : CSys) (e : CEv) : CSys :=
+  cstepG c rc (Vmu.cycle vc) σ e
+
 def crun (c : Cfg) (vc : Vmu.Cfg) (rc : C15.Cfg) (σ : CSys) (evs : List CEv) : CSys :=
   evs.foldl (cstep c vc rc) σ
 
+/-- the same machine around the unit BEFORE repair 1640e206 (`C14.Vmu.Old.cycle`) -/
+def crunOld (c : Cfg) (vc : Vmu.Cfg) (rc : C15.Cfg) (σ : CSys) (evs : List CEv) : CSys :=
+  evs.foldl (cstepG c rc (Vmu.Old.cycle vc)) σ
+
 /-- the start: a fresh scheduler state, an empty unit, an empty ROB and memory -/
 def CSys.init (vc : Vmu.Cfg) (gs : GState) : CSys :=
-  { g := gs, vmu := Vmu.St.init vc, sys := {}, table := [], oi := fun _ => [], log := [] }
+  { g := gs, vmu := Vmu.St.init vc, sys := {}, table := [], adm := [], oi := fun _ => [], log := [] }
 
 /-- an `other` event is not a FLAT issue / FLAT return -/
 def nonFlat : GOp → Bool
